@@ -398,10 +398,11 @@ public:
 		}
 
 		uint64_t next = opt.shard;
-		int retried_hang = 0;
+		int retried_hang = 0, hangs = 0;
 		bool truncated = false;
 		while (next < opt.cases) {
 			if (sh->nanoms >= (uint64_t)opt.max_anoms) { truncated = true; break; }
+			if (hangs >= 3) { truncated = true; break; }   // each confirmed hang costs 3 x case_timeout: a tree that loops for ever must not keep the check busy for hours
 			if (opt.nofork) {
 				std::unordered_set<uint64_t> seen;
 				for (uint64_t i = next; i < opt.cases; i += opt.nshards) run_one(*m, i, seen);
@@ -445,6 +446,7 @@ public:
 				}
 				if (!retried_hang) { retried_hang = 1; next = at; continue; }  // one re-run in a fresh process
 				retried_hang = 0;
+				hangs++;
 				write_anom("hang", "hang", fmt("case did not finish within %d s twice", opt.case_timeout * 2), at,
 				           std::string(sh->desc, sh->desc_len));
 				next = at + opt.nshards;
